@@ -327,6 +327,10 @@ def obligations(tier):
         obs.append(ctor_ob("GaussianPDF", args))
     obs.append(ctor_ob("GaussianDiagPDF", "Sigma"))
     obs.extend(site_obs(prog))
+    # the condition_on_x construction site outside the known finding F10 (square A)
+    from .c17 import coherence_square_ob, CLASSES as HETERO
+    for cls in HETERO:
+        obs.append(coherence_square_ob(cls))
     # "... also after the object has been multiplied, sliced or queried": the mass / normaliser caches of the results of these
     # operations are the closed-form values of their natural parameters (shared with C04's invariant obligations)
     from . import apis, c04
@@ -339,7 +343,7 @@ def obligations(tier):
     return obs
 
 
-FLOORS = {"group:mass": 24, "group:linalg": 4, "group:normalize": 3, "group:ctor": 4, "group:site": 8, "group:after": 230}
+FLOORS = {"group:mass": 24, "group:linalg": 4, "group:normalize": 3, "group:ctor": 4, "group:site": 8, "group:after": 230, "group:coherent-square": 4}
 LEVEL = "proof"
 EXPLANATION = ("Closed-form mass (compute_lnZ / log_integral* / integral* / integrate('1')), utils/linalg.py against its summary, normalisation, "
                "every density constructor argument combination, and a who-may-construct scan: every library site constructing a GaussianPDF "
